@@ -462,7 +462,7 @@ def detach (cfg : Cfg) (s : State) (x p : Id) : State × Out :=
   if x ∈ s.children p then opRemove cfg s p x else (s, .none)
 
 def opMoveToGroup (cfg : Cfg) (s : State) (x g : Id) : State × Out :=
-  if !s.isLayer x then (s, .error .other)
+  if !s.isLayer x then (s, .error .attributeError)
   else if !s.isGroup g then (s, .error .assertionError)
   else if g = x then (s, .error .assertionError)
   else
@@ -486,7 +486,7 @@ def warnRepr (s : State) (x : Id) : State × Out :=
   | (s1, some e) => (s1, .error e)
 
 def opDeleteLayer (cfg : Cfg) (s : State) (x : Id) : State × Out :=
-  if !s.isLayer x then (s, .error .other)
+  if !s.isLayer x then (s, .error .attributeError)
   else
     match s.parent x with
     | none => warnRepr s x
@@ -498,7 +498,7 @@ def opDeleteLayer (cfg : Cfg) (s : State) (x : Id) : State × Out :=
         else finishRemove cfg r1.1 p (.id x)
 
 def opMoveUp (cfg : Cfg) (s : State) (x : Id) (k : Int) : State × Out :=
-  if !s.isLayer x then (s, .error .other)
+  if !s.isLayer x then (s, .error .attributeError)
   else
     match s.parent x with
     | none => (s, .error .assertionError)
@@ -586,7 +586,7 @@ def opGroupLayers (cfg : Cfg) (s : State) (xs : List Id) (parent : Option Id) : 
   match xs with
   | [] => (s, .error .assertionError)
   | x0 :: _ =>
-    if !s.isLayer x0 then (s, .error .other)
+    if !s.isLayer x0 then (s, .error .attributeError)
     else
       match glPre cfg s (glParent cfg s parent x0) xs with
       | some r => refuse s r
@@ -595,7 +595,7 @@ def opGroupLayers (cfg : Cfg) (s : State) (xs : List Id) (parent : Option Id) : 
 /-! ### Attribute setters that touch the caches -/
 
 def opSetVisible (cfg : Cfg) (s : State) (x : Id) (v : Bool) : State × Out :=
-  if !s.isLayer x then (s, .error .other)
+  if !s.isLayer x then (s, .error .attributeError)
   else
     let s1 := invUp cfg s x
     if cfg.invalidateBelow && s1.cont x then
@@ -606,7 +606,7 @@ def opSetVisible (cfg : Cfg) (s : State) (x : Id) (v : Bool) : State × Out :=
 
 /-- `left` / `top` setters (only plain layers have them: groups expose read-only properties) -/
 def opSetOffset (cfg : Cfg) (s : State) (x : Id) (horizontal : Bool) (v : Int) : State × Out :=
-  if !(s.isLayer x && s.kind x == .leaf) then (s, .error .other)
+  if !(s.isLayer x && s.kind x == .leaf) then (s, .error .attributeError)
   else
     let s1 := invUp cfg s x
     let b := s1.box x
@@ -651,7 +651,7 @@ def Op.target : Op → Option Id
 def step (cfg : Cfg) (s : State) (op : Op) : State × Out :=
   match op.target with
   | some g =>
-    if !s.isGroup g then (s, .error .other)   -- AttributeError: not a method of that object
+    if !s.isGroup g then (s, .error .attributeError)   -- AttributeError: not a method of that object
     else
       match op with
       | .append _ x => opAppend cfg s g x
@@ -664,7 +664,7 @@ def step (cfg : Cfg) (s : State) (op : Op) : State × Out :=
       | .setslice _ a b xs => opSetslice cfg s g a b xs
       | .delitem _ i => opDelitem cfg s g i
       | .delslice _ a b => opDelslice cfg s g a b
-      | _ => (s, .error .other)
+      | _ => (s, .error .attributeError)
   | none =>
     match op with
     | .deleteLayer x => opDeleteLayer cfg s x
@@ -681,7 +681,7 @@ def step (cfg : Cfg) (s : State) (op : Op) : State × Out :=
     | .setLeft x v => opSetOffset cfg s x true v
     | .setTop x v => opSetOffset cfg s x false v
     | .observe o => observe s o
-    | _ => (s, .error .other)
+    | _ => (s, .error .attributeError)
 
 /-- run a history, collecting the outputs -/
 def run (cfg : Cfg) : State → List Op → State × List Out
